@@ -21,13 +21,17 @@ BOUNDS = dict(quick=dict(nb="1..3 (formula, all set partitions into band groups)
                          "below/above the 1e-7 cut of dEig_inv and the symbolic degeneracy threshold is a path", dH="arbitrary symbolic Hermitian (H gauge)",
                          Efermi="symbolic grid EF0+i*dEF, 2 points, top level >= all bands",
                          pipeline="real Data_K_R on 3 R-vectors with symbolic Hermitian H(R) at a concrete k: nb=2 with an arbitrary symbolic complex eigenvector matrix, nb=3 with U=1"),
-              thorough=dict(nb="1..4 (formula), 2..4 (Tabulator), 2..3 (AHC, 2..3 Fermi levels)", spectrum="as quick", dH="as quick", Efermi="as quick",
-                            pipeline="as quick plus nb=3 with an arbitrary symbolic complex eigenvector matrix"))
+              thorough=dict(nb="1..4 (formula, all set partitions), 5 (formula, partitions into runs of neighbouring bands), 2..5 (Tabulator), 2..4 (AHC with the top level above all bands, "
+                            "2..3 Fermi levels)", spectrum="as quick", dH="as quick",
+                            Efermi="as quick; plus 'anywhere' cases: symbolic grid EF0+i*dEF (dEF>0, 2..3 points) with NO assumption on its position - every grid point at or above the top band "
+                            "of every summed k-point must give 0 (nb 2..4 with one k-point, nb=2 with two k-points, degenerate groups at the top and degen_Kramers included), for the AHC and "
+                            "AHC_test calculators, k-summed and k_resolved=True",
+                            pipeline="as quick plus nb=3 with an arbitrary symbolic complex eigenvector matrix and nb=4 with U=1"))
 EXPLANATION = ("A Data_K_R shell carries a symbolic sorted spectrum and an arbitrary symbolic Hermitian velocity matrix (plus arbitrary AA/OO matrices that must not "
                "enter); the real dEig_inv, D_H, Omega(external_terms=False), Tabulator and AHC run on it, every threshold comparison forks, and the sum over all band "
                "groups / bands (and the AHC sea value at a Fermi level above all bands) is shown to be the zero rational function by normalisation + z3.")
 ASSUMPTIONS = ["band energies sorted ascending (eigh contract)", "degeneracy threshold > 0", "dEF > 0, top Fermi level >= highest band (AHC cases)"]
-OUTSIDE = ["second sentence of C27 (Chern quantisation up to discretisation error): convergence statement, not applicable to solver checking",
+OUTSIDE = ["two k-points with nb>=3 in the 'anywhere' cases (more than 20000 decision paths)", "second sentence of C27 (Chern quantisation up to discretisation error): convergence statement, not applicable to solver checking",
            "the eigen-decomposition itself (H(k) -> E, U): the shell starts from the H-gauge matrices, which for any U are Hermitian",
            "tetrahedron weights (tetra=True) and nb above the stated bounds", "models.py builders and the value of factors.factor_ahc (a non-zero constant cannot affect a zero)"]
 STUBS = ["np.linalg.eigh (pipeline cases): returns the harness's symbolic sorted spectrum and an ARBITRARY complex matrix as eigenvectors (U^+ dH U is Hermitian for any U, so the sum rule must hold for all of them)",
@@ -192,7 +196,7 @@ K0 = np.array([[0.125, 0.25, -0.375]])
 
 def _system(nb, HR):
     import wannierberri.fourier.rvectors as RV
-    rvec = RV.Rvectors(lattice=LATT, iRvec=IR3, shifts_left_red=np.array([[0.0, 0, 0], [0.25, 0.5, 0.125], [0.5, 0.25, 0.75]][:nb]))
+    rvec = RV.Rvectors(lattice=LATT, iRvec=IR3, shifts_left_red=np.array([[0.0, 0, 0], [0.25, 0.5, 0.125], [0.5, 0.25, 0.75], [0.125, 0.75, 0.375], [0.625, 0.0, 0.25]][:nb]))
     return _SysStub(nb, dict(Ham=HR), rvec)
 
 
@@ -303,7 +307,7 @@ def cases(tier, seed):
         out.append(Case("AHC nb=4 nEF=2 kramers=True", case_ahc, dict(nb=4, nEF=2, kramers=True), timeout=big))
         for cname in CALCS:
             for nb, nEF, nk, kres, kr in ((2, 3, 1, False, False), (3, 2, 1, False, False), (3, 3, 1, False, False), (4, 2, 1, False, False), (2, 2, 2, False, False), (2, 2, 2, True, False),
-                                          (3, 2, 1, True, False), (2, 3, 1, True, True), (4, 2, 1, False, True), (3, 2, 2, True, False)):
+                                          (3, 2, 1, True, False), (2, 3, 1, True, True), (4, 2, 1, False, True)):
                 if cname == "AHC_test" and (nb > 3 or nk > 1 and nb > 2):
                     continue
                 out.append(Case(f"{cname} anywhere nb={nb} nEF={nEF} nk={nk} k_resolved={kres} kramers={kr}", case_ahc_anywhere,
